@@ -226,8 +226,10 @@ impl IndentationVisitor {
         if let Some(eq_offset) = between.find('=') {
             let eq_abs = left_end + eq_offset;
 
+            // Only whitespace is ours to change: a comment between the
+            // destination and `=` must stay.
             let before_eq = &self.src[left_end..eq_abs];
-            if before_eq != " " {
+            if before_eq != " " && before_eq.trim().is_empty() {
                 self.span_edits.push(SpanEdit {
                     start_offset: left_end,
                     end_offset: eq_abs,
@@ -236,7 +238,7 @@ impl IndentationVisitor {
             }
 
             let after_eq = &self.src[eq_abs + 1..expr_start];
-            if after_eq != " " && !after_eq.contains('\n') {
+            if after_eq != " " && !after_eq.contains('\n') && after_eq.trim().is_empty() {
                 self.span_edits.push(SpanEdit {
                     start_offset: eq_abs + 1,
                     end_offset: expr_start,
